@@ -6,6 +6,7 @@ CONSTANTS
   Kinds = {"close", "keep", "ws"}
   SigTwice = TRUE
   Dev = {}
+  Faults = {"nofd"}
 INIT TInit
 NEXT TNext
 CONSTRAINT Track
